@@ -2,7 +2,7 @@
 import itertools
 import z3
 
-from pyvc.contract import Contract, LoopContract, Scope, contract, loop_contract
+from pyvc.contract import Contract, LoopContract, Scope, contract, loop_contract, append_receiver, loop_assigned
 from pyvc.values import (EngineLimit, SymV, Obj, NpCell, NpArr, AbsVal, SDict, SymSeq, SymDict, PyDict, PyList, ClassRef, NameK,
                          Opaque, mk, ival, rval, bval, nameval, NONE_ID, A1, A2)
 from pyvc import builtins as B
@@ -867,16 +867,20 @@ class LoadActionListHosts(LoopContract):
     tags = ("C11", "C05", "C12", "C10", "C19", "C07", "C01")
 
     def snapshot(self, I, fr, seq):
-        return {}
+        import ast
+        if not isinstance(self.st.target, ast.Name):
+            raise EngineLimit("host loop of load_action_list does not bind the address to one name")
+        I.ext_state["lal_names"] = {"list": append_receiver(self.st), "address": self.st.target.id}
+        return dict(I.ext_state["lal_names"])
 
     def havoc(self, I, fr, entry, seq):
-        fr.locals["action_list"] = lal_new_list(I, "hosts")
-        for v in LAL_LOCALS:
+        fr.locals[entry["list"]] = lal_new_list(I, "hosts")
+        for v in loop_assigned(self.st):
             fr.locals.pop(v, None)
 
     def inv(self, I, fr, entry, seq, k):
         sig = I.ext_state["sig"]
-        lst = fr.locals["action_list"]
+        lst = fr.locals[entry["list"]]
         if isinstance(lst, PyList):
             zero = z3.is_int_value(z3.simplify(k)) and z3.simplify(k).as_long() == 0
             return [("list-holds-the-first-hosts-actions", z3.BoolVal(bool(zero and not lst.items)))]
@@ -892,21 +896,24 @@ class _LalInner(LoopContract):
     offset = None
 
     def snapshot(self, I, fr, seq):
-        lst = fr.locals["action_list"]
+        nm = I.ext_state.get("lal_names")
+        if nm is None or append_receiver(self.st) != nm["list"]:
+            raise EngineLimit("inner loop of load_action_list does not append to the list of the host loop")
+        lst = fr.locals[nm["list"]]
         if not (isinstance(lst, SymSeq) and getattr(lst, "rec", None)):
             raise EngineLimit("inner loop of load_action_list entered without the record list")
-        return {"lst": lst, "n": lst.n, "cols": dict(lst.rec["cols"]), "address": fr.locals["address"]}
+        return {"lst": lst, "n": lst.n, "cols": dict(lst.rec["cols"]), "address": fr.locals[nm["address"]], "list": nm["list"]}
 
     def havoc(self, I, fr, entry, seq):
         new = lal_new_list(I, "in%d" % self.ordinal)
         lst = entry["lst"]
         lst.n, lst.rec["cols"] = new.n, new.rec["cols"]
-        for v in LAL_LOCALS[1:]:
+        for v in loop_assigned(self.st):
             fr.locals.pop(v, None)
 
     def inv(self, I, fr, entry, seq, k):
         sig = I.ext_state["sig"]
-        lst = fr.locals["action_list"]
+        lst = fr.locals[entry["list"]]
         if lst is not entry["lst"]:
             return [("appends-to-the-same-list", z3.BoolVal(False))]
         n0 = ival(entry["n"])
